@@ -12,8 +12,33 @@ pub const UNIVERSE: [&str; 6] = ["b", "a", "d", "c", "ab", ""];
 /// never inserted
 pub const ABSENT: &str = "zz";
 
+thread_local! {
+    static UNIVERSE_SIZE: std::cell::Cell<usize> = const { std::cell::Cell::new(6) };
+}
+
+/// Sets the size of the name universe for the calling thread (6 = the classic universe; larger
+/// universes add generated names whose order is unrelated to their index).
+pub fn set_universe(n: u8) {
+    UNIVERSE_SIZE.with(|u| u.set((n as usize).max(1)));
+}
+
+pub fn universe_size() -> usize {
+    UNIVERSE_SIZE.with(|u| u.get())
+}
+
 pub fn uname(i: u8) -> String {
-    UNIVERSE[(i as usize) % UNIVERSE.len()].to_string()
+    let k = (i as usize) % universe_size();
+    if k < UNIVERSE.len() {
+        UNIVERSE[k].to_string()
+    } else {
+        // a bijection on 0..128 so that name order differs from index order
+        format!("k{:03}", (k * 29 + 7) % 128)
+    }
+}
+
+/// all names of the current universe
+pub fn universe_names() -> Vec<String> {
+    (0..universe_size()).map(|i| uname(i as u8)).collect()
 }
 
 #[derive(Clone, Copy, Debug, PartialEq, Eq, Serialize, Deserialize)]
@@ -128,6 +153,9 @@ pub enum Op {
 
 #[derive(Clone, Debug, PartialEq, Eq, Serialize, Deserialize)]
 pub struct HistCase {
+    /// size of the name universe (6 unless a "big" history)
+    #[serde(default = "default_universe")]
+    pub universe: u8,
     /// GraphSpecs index 0..96
     pub spec: u8,
     /// weight mode, see `weight_of`
@@ -135,6 +163,10 @@ pub struct HistCase {
     /// optional `new_from_nodes_and_edges(nodes, edges, specs)` as the first operation
     pub ctor: Option<(Vec<(u8, Option<i32>)>, Vec<(u8, u8, W)>)>,
     pub ops: Vec<Op>,
+}
+
+fn default_universe() -> u8 {
+    6
 }
 
 #[derive(Clone, Debug, PartialEq)]
